@@ -89,6 +89,43 @@ theorem pCoord_stops : StopsAtNul OplFmt.pCoord := by
   | error e => rfl
   | ok r => rfl
 
+/-! ### C strings, small helpers for Props/C03Text.lean -/
+
+theorem cstr_noNul (l : Bytes) : NoNul (Chunks.cstr l) := by
+  induction l with
+  | nil => intro b hb; cases hb
+  | cons x xs ih =>
+    unfold Chunks.cstr
+    by_cases hx : (x == 0) = true
+    · rw [if_pos hx]; intro b hb; cases hb
+    · rw [if_neg hx]
+      intro b hb
+      rcases List.mem_cons.mp hb with rfl | hb
+      · intro h0; exact hx (by simp [h0])
+      · exact ih b hb
+
+theorem cstr_behind (s junk : Bytes) (h : NoNul s) : Chunks.cstr (s ++ behind junk) = s := by
+  induction s with
+  | nil => simp [behind, Chunks.cstr]
+  | cons x xs ih =>
+    have hx : x ≠ 0 := h x (List.mem_cons_self ..)
+    have hx' : (x == 0) = false := by simpa using hx
+    simp only [List.cons_append, Chunks.cstr, hx']
+    simp only [Bool.false_eq_true, if_false, List.cons.injEq, true_and]
+    exact ih (fun b hb => h b (List.mem_cons_of_mem _ hb))
+
+theorem bindE_ok_iff {ε α β : Type} (x : Except ε α) (f : α → Except ε β) (b : β) :
+    TextFmt.bindE x f = .ok b ↔ ∃ a, x = .ok a ∧ f a = .ok b := by
+  cases x with
+  | ok a => simp [TextFmt.bindE]
+  | error e => simp [TextFmt.bindE]
+
+theorem setUserCheck_ok (u : Bytes) (h : OplFmt.setUserCheck u = .ok ()) : u.length ≤ 1024 := by
+  unfold OplFmt.setUserCheck at h
+  split at h
+  · cases h
+  · rename_i hn; simpa [OplFmt.maxString] using hn
+
 /-! ### the driver's linear-time line splitter is the specification's -/
 
 theorem segsFast_eq : ∀ (bs cur : Bytes) (acc : List Bytes),
